@@ -80,10 +80,19 @@ namespace Sim
 
 def lookupVal (l : List (String × Val)) (n : String) : Val := (PState.lookup l n).getD Val.nan
 
-/-- a release row as the particle the state receives (`State.append` with the defaults) -/
+/-- a flag column of the release table (`active`, `alive`): absent means true, a number means
+    "not zero" (NaN: true, as `bool(nan)` is) -/
+def flagOf (cols : List (String × Val)) (n : String) : Bool :=
+  match PState.lookup cols n with
+  | some (.num q) => q != 0
+  | _ => true
+
+/-- a release row as the particle the state receives (`State.append` with the defaults; the
+    columns `alive` and `active`, when the file has them, are the particle's flags) -/
 def rowToRP (s : Sim) (r : RRow) : RP :=
   let get (n : String) : Rat := RomsSetup.valRat (lookupVal r.cols n)
-  { pid := 0, x := get "X", y := get "Y", z := get "Z", alive := true, active := true,
+  { pid := 0, x := get "X", y := get "Y", z := get "Z", alive := flagOf r.cols "alive",
+    active := flagOf r.cols "active",
     vars := s.ivDefaults.map (fun (n, d) => (n, (PState.lookup r.cols n).getD d)),
     pvars := s.pvNames.map (fun n => (n, lookupVal r.cols n)) }
 
